@@ -379,12 +379,22 @@ impl Scenario for C09 {
         last = *x;
       }
     }
-    if violation.is_none() && matches!(case.op, ROp::BufferTime | ROp::BufferCountTime(_)) && got.contains(&Ev::Complete) && flat != src_items {
+    let is_buffer = matches!(case.op, ROp::BufferTime | ROp::BufferCountTime(_));
+    let source_completed = evs.iter().any(|(_, e)| *e == Ev::Complete);
+    if violation.is_none() && is_buffer && source_completed && flat != src_items {
       violation = Some(Violation { rule: "c09.buffers-not-whole-source".into(), site: site.clone(), detail: format!("`{}`: source completed; buffers [{}] do not concatenate to the source sequence", trace.trim(), fmt_trace(&got)) });
     }
-    // ---- timed oracle, tolerant on exact ties: some assignment of tie orders
-    // must explain the output
-    if violation.is_none() {
+    // buffers are delivered in source order and each item at most once, so an
+    // item skipped now can never be delivered later: a gap contradicts "when
+    // the source completes their concatenation is the whole source sequence"
+    // for the continuation of this script that completes
+    if violation.is_none() && is_buffer && !src_items.starts_with(&flat) {
+      violation = Some(Violation { rule: "c09.buffer-gap".into(), site: site.clone(), detail: format!("`{}`: buffers [{}] skip a source item", trace.trim(), fmt_trace(&got)) });
+    }
+    // ---- timed oracle (debounce and throttle only: the statement fixes *when*
+    // they deliver; for sample and the buffers it fixes only the rules above),
+    // tolerant on exact ties: some assignment of tie orders must explain the output
+    if violation.is_none() && matches!(case.op, ROp::Debounce | ROp::ThrottleLeading | ROp::ThrottleTailing | ROp::ThrottleAll) {
       let nt = ties.len().min(6);
       let mut explained = false;
       let mut first_exp = String::new();
